@@ -177,3 +177,63 @@ Example ex5_decode :
     (decode_key ex5_flat {| k_pre := 0%Z; k_rounds := []; k_left := Some (4%Z, [0%Z; 0%Z; 0%Z], []) |})
   = Some [[Some 0; Some 1; Some 0]; [Some 1; Some 0; Some 1]].
 Proof. vm_compute. reflexivity. Qed.
+
+(** A design of fragment F2 with a derived factor in the sampled crossing (the Stroop design):
+    CrossBlock([color, word, congruent], [color, congruent], []) with congruent = "color = word" a within-trial
+    factor.  RandomGen permutes the 4 (color, congruent) instances and draws for every trial one of the words
+    the instance admits (1 for a congruent instance, 2 for an incongruent one): 4! * (1*1*2*2) = 96 keys,
+    every one accepted, 96 valid sequences. *)
+Open Scope string_scope.
+Definition ex6_flat : flat :=
+{| fl_design := [{| ff_name := "color"; ff_hidden := false; ff_levels := [{| lv_name := "red"; lv_weight := 1; lv_accepts := [] |}; {| lv_name := "blue"; lv_weight := 1; lv_accepts := [] |}]; ff_window := None; ff_complex := false |};
+      {| ff_name := "word"; ff_hidden := false; ff_levels := [{| lv_name := "red"; lv_weight := 1; lv_accepts := [] |}; {| lv_name := "blue"; lv_weight := 1; lv_accepts := [] |}; {| lv_name := "green"; lv_weight := 1; lv_accepts := [] |}]; ff_window := None; ff_complex := false |};
+      {| ff_name := "congruent"; ff_hidden := false; ff_levels := [{| lv_name := "con"; lv_weight := 1; lv_accepts := [[[Some 0]; [Some 0]]; [[Some 1]; [Some 1]]] |}; {| lv_name := "inc"; lv_weight := 1; lv_accepts := [[[Some 0]; [Some 1]]; [[Some 0]; [Some 2]]; [[Some 1]; [Some 0]]; [[Some 1]; [Some 2]]] |}]; ff_window := Some {| win_deps := [0; 1]; win_width := 1; win_stride := 1; win_start := 0; win_start_delta := (0)%Z |}; ff_complex := false |}];
+   fl_act := [0; 1; 2]; fl_crossings := [[0; 2]]; fl_sustains := [1]; fl_weights := [1]; fl_sizes := [4];
+   fl_preambles := [0]; fl_alignment := EqualPreamble; fl_alignment_preamble := 0; fl_min_trials := 0; fl_trials := 4;
+   fl_rcc := true; fl_exclude := []; fl_excluded_derived := [];
+   fl_constraints := [(FCross);
+      (FConsistency);
+      (FDerivation 5 [[DIdx 0; DIdx 2]; [DIdx 1; DIdx 3]] 2);
+      (FDerivation 6 [[DIdx 0; DIdx 3]; [DIdx 0; DIdx 4]; [DIdx 1; DIdx 2]; [DIdx 1; DIdx 4]] 2)];
+   fl_errors_fail := false |}.
+Close Scope string_scope.
+
+Example ex6_frag2 : frag2 ex6_flat = true. Proof. vm_compute. reflexivity. Qed.
+Example ex6_frag1 : frag1 ex6_flat = false. Proof. vm_compute. reflexivity. Qed.
+Example ex6_derived : has_derived ex6_flat = true. Proof. vm_compute. reflexivity. Qed.
+Example ex6_enum : enumerates_b ex6_flat = true. Proof. vm_compute. reflexivity. Qed.
+Example ex6_nkeys : List.length (keys_of ex6_flat) = 96. Proof. vm_compute. reflexivity. Qed.
+Example ex6_nacc : List.length (accepted_keys ex6_flat) = 96. Proof. vm_compute. reflexivity. Qed.
+Example ex6_nvalid : List.length (all_valid (code_sem ex6_flat)) = 96. Proof. vm_compute. reflexivity. Qed.
+Example ex6_sound : check_sound ex6_flat = true. Proof. vm_compute. reflexivity. Qed.
+Example ex6_inj : check_inj ex6_flat = true. Proof. vm_compute. reflexivity. Qed.
+Example ex6_complete : check_complete ex6_flat = true. Proof. vm_compute. reflexivity. Qed.
+Example ex6_rejection_free : rejection_free ex6_flat = true. Proof. vm_compute. reflexivity. Qed.
+Example ex6_count : check_count ex6_flat = true. Proof. vm_compute. reflexivity. Qed.
+
+(** the same with Exclude(word, green): the word is still drawn among all three, the candidates with an excluded
+    word are rejected ([__are_constraints_violated]): 96 keys, 24 accepted = 24 valid sequences *)
+Open Scope string_scope.
+Definition ex7_flat : flat :=
+{| fl_design := [{| ff_name := "color"; ff_hidden := false; ff_levels := [{| lv_name := "red"; lv_weight := 1; lv_accepts := [] |}; {| lv_name := "blue"; lv_weight := 1; lv_accepts := [] |}]; ff_window := None; ff_complex := false |};
+      {| ff_name := "word"; ff_hidden := false; ff_levels := [{| lv_name := "red"; lv_weight := 1; lv_accepts := [] |}; {| lv_name := "blue"; lv_weight := 1; lv_accepts := [] |}; {| lv_name := "green"; lv_weight := 1; lv_accepts := [] |}]; ff_window := None; ff_complex := false |};
+      {| ff_name := "congruent"; ff_hidden := false; ff_levels := [{| lv_name := "con"; lv_weight := 1; lv_accepts := [[[Some 0]; [Some 0]]; [[Some 1]; [Some 1]]] |}; {| lv_name := "inc"; lv_weight := 1; lv_accepts := [[[Some 0]; [Some 1]]; [[Some 0]; [Some 2]]; [[Some 1]; [Some 0]]; [[Some 1]; [Some 2]]] |}]; ff_window := Some {| win_deps := [0; 1]; win_width := 1; win_stride := 1; win_start := 0; win_start_delta := (0)%Z |}; ff_complex := false |}];
+   fl_act := [0; 1; 2]; fl_crossings := [[0; 2]]; fl_sustains := [1]; fl_weights := [1]; fl_sizes := [4];
+   fl_preambles := [0]; fl_alignment := EqualPreamble; fl_alignment_preamble := 0; fl_min_trials := 0; fl_trials := 4;
+   fl_rcc := true; fl_exclude := [(1, 2)]; fl_excluded_derived := [];
+   fl_constraints := [(FCross);
+      (FConsistency);
+      (FExclude 1 2);
+      (FDerivation 5 [[DIdx 0; DIdx 2]; [DIdx 1; DIdx 3]] 2);
+      (FDerivation 6 [[DIdx 0; DIdx 3]; [DIdx 0; DIdx 4]; [DIdx 1; DIdx 2]; [DIdx 1; DIdx 4]] 2)];
+   fl_errors_fail := false |}.
+Close Scope string_scope.
+
+Example ex7_frag2 : frag2 ex7_flat = true. Proof. vm_compute. reflexivity. Qed.
+Example ex7_rejection_free : rejection_free ex7_flat = false. Proof. vm_compute. reflexivity. Qed.
+Example ex7_nkeys : List.length (keys_of ex7_flat) = 96. Proof. vm_compute. reflexivity. Qed.
+Example ex7_nacc : List.length (accepted_keys ex7_flat) = 24. Proof. vm_compute. reflexivity. Qed.
+Example ex7_nvalid : List.length (all_valid (code_sem ex7_flat)) = 24. Proof. vm_compute. reflexivity. Qed.
+Example ex7_sound : check_sound ex7_flat = true. Proof. vm_compute. reflexivity. Qed.
+Example ex7_complete : check_complete ex7_flat = true. Proof. vm_compute. reflexivity. Qed.
+Example ex7_acount : check_accepted_count ex7_flat = true. Proof. vm_compute. reflexivity. Qed.
